@@ -612,6 +612,84 @@ func lineSafe(v ssa.Value, seen map[ssa.Value]bool, why *string) bool {
 		switch f.String() {
 		case "strings.TrimSpace":
 			return lineSafe(x.Call.Args[0], seen, why)
+		case "(*strings.Builder).String":
+			// everything written into the local builder
+			al, ok := x.Call.Args[0].(*ssa.Alloc)
+			if !ok {
+				*why = "a builder that is not a local variable"
+				return false
+			}
+			for _, ref := range *al.Referrers() {
+				c, ok := ref.(*ssa.Call)
+				if !ok {
+					if _, isDbg := ref.(*ssa.DebugRef); isDbg {
+						continue
+					}
+					if mi, isMI := ref.(*ssa.MakeInterface); isMI {
+						// handed to fmt.Fprintf as the writer
+						for _, r2 := range *mi.Referrers() {
+							fc, ok := r2.(*ssa.Call)
+							if !ok {
+								continue
+							}
+							g := fc.Call.StaticCallee()
+							if g == nil || g.String() != "fmt.Fprintf" || fc.Call.Args[0] != ssa.Value(mi) {
+								*why = "the builder is handed to something other than fmt.Fprintf"
+								return false
+							}
+							format, ok := constString(fc.Call.Args[1])
+							verbs, okv := fmtVerbs(format)
+							if !ok || !okv {
+								*why = "Fprintf into the builder with a format that is not a newline-free constant"
+								return false
+							}
+							var ops []ssa.Value
+							if len(fc.Call.Args) == 3 {
+								ops = varargOperands(fc.Call.Args[2])
+							}
+							if len(ops) != len(verbs) {
+								*why = "format/operand count mismatch"
+								return false
+							}
+							for i, vb := range verbs {
+								b, _ := ops[i].Type().Underlying().(*types.Basic)
+								switch {
+								case vb == "%d" && b != nil && b.Info()&types.IsInteger != 0:
+								case vb == "%t" && b != nil && b.Kind() == types.Bool:
+								case vb == "%q" && b != nil && b.Info()&types.IsString != 0:
+								default:
+									*why = "verb " + vb + " can emit arbitrary text"
+									return false
+								}
+							}
+						}
+						continue
+					}
+					*why = "the builder's address escapes"
+					return false
+				}
+				g := c.Call.StaticCallee()
+				if g == nil {
+					*why = "dynamic call on the builder"
+					return false
+				}
+				switch g.String() {
+				case "(*strings.Builder).String", "(*strings.Builder).Len", "(*strings.Builder).Reset", "(*strings.Builder).Grow":
+				case "(*strings.Builder).WriteString":
+					if !lineSafe(c.Call.Args[1], seen, why) {
+						return false
+					}
+				case "(*strings.Builder).WriteByte", "(*strings.Builder).WriteRune":
+					if k, ok := constInt(c.Call.Args[1]); !ok || k == '\n' || k == '\r' {
+						*why = "a character written into the builder may be a line break"
+						return false
+					}
+				default:
+					*why = "the builder is used by " + g.String()
+					return false
+				}
+			}
+			return true
 		case "strings.Join":
 			// every element put into the list and the separator
 			if !lineSafe(x.Call.Args[1], seen, why) {
@@ -934,6 +1012,14 @@ func ruleCLIOneWrite(p *Prog, r *Report) {
 					}
 					if fn == run && n.name == "fmt.Fprintf" {
 						continue
+					}
+					// formatting into a local strings.Builder is not output
+					if n.name == "fmt.Fprintf" && len(c.Common().Args) > 0 {
+						if mi, ok := c.Common().Args[0].(*ssa.MakeInterface); ok {
+							if al, ok := mi.X.(*ssa.Alloc); ok && strings.HasSuffix(al.Type().String(), "strings.Builder") {
+								continue
+							}
+						}
 					}
 					if fn.Name() == "main" && (n.name == "os.Exit") {
 						continue
